@@ -351,6 +351,66 @@ fn kernel_case(src: &mut Src, ctx: &mut RunCtx) -> RunResult {
             format!("Fir::filter_float with {nt} taps gives {k}, f64 dot product {y}, generic kernel {g} (bound {b:e}; avx build: {})", cfg!(target_feature = "avx")),
         ));
     }
+    // General IIR kernel (no block wraps it; SymbolSync uses the clamped form):
+    // y[n] = t0*x[n] + sum_i t[i]*y[n-i], and the clamped variant feeds the
+    // *clamped* value back.
+    if src.chance(1, 3) {
+        use rustradio::iir_filter::{ClampedFilter, Filter, IirFilter};
+        let nt = src.range(1, 5);
+        let mut t: Vec<f32> = vec![(src.below(41) as f32 - 20.0) / 10.0];
+        for _ in 1..nt {
+            t.push((src.below(41) as f32 - 20.0) / (20.0 * nt as f32));
+        }
+        let clamped = src.coin();
+        let (mi, mx) = if src.coin() { (-1.0f32, 1.0f32) } else { (-0.25, 2.0) };
+        let fill = if src.chance(1, 3) { Some((src.below(41) as f32 - 20.0) / 10.0) } else { None };
+        let n = src.range(1, 60);
+        let x: Vec<f32> = (0..n)
+            .map(|_| match src.below(5) {
+                0 => (src.below(401) as f32 - 200.0) / 10.0, // far outside the clamp
+                1 => 0.0,
+                _ => (src.below(401) as f32 - 200.0) / 100.0,
+            })
+            .collect();
+        let got = crate::engine::catch(|| {
+            let mut f = IirFilter::new(&t);
+            if let Some(v) = fill {
+                f.fill(v);
+            }
+            x.iter().map(|&v| if clamped { f.filter_clamped(v, mi, mx) } else { f.filter(v) }).collect::<Vec<f32>>()
+        });
+        let got = match got {
+            Ok(g) => g,
+            Err(p) => return ctx.tolerate(Violation::new(format!("C11:iir-panic:{}", p.site()), format!("IirFilter with taps {t:?} panicked: {} at {}", p.msg, p.loc))),
+        };
+        ctx.count(if clamped { "iir_clamped_checked" } else { "iir_checked" });
+        let mut hist: Vec<f32> = match fill {
+            Some(v) => vec![v; nt - 1],
+            None => vec![],
+        };
+        let mut hit_clamp = false;
+        for (k, &v) in x.iter().enumerate() {
+            let mut y = t[0] * v;
+            for (i, h) in hist.iter().rev().enumerate().take(nt - 1) {
+                y += *h * t[i + 1];
+            }
+            if clamped {
+                let c = y.clamp(mi, mx);
+                hit_clamp |= c != y;
+                y = c;
+            }
+            hist.push(y);
+            if (got[k] - y).abs() > 1e-5 * (1.0 + y.abs()) {
+                return ctx.tolerate(Violation::new(
+                    if clamped { "C11:iir-clamped-recurrence" } else { "C11:iir-recurrence" },
+                    format!("IirFilter taps {t:?} fill {fill:?} clamp {:?}: output {k} is {}, the recurrence gives {y} (input {:?})", if clamped { Some((mi, mx)) } else { None }, got[k], &x[..=k.min(11)]),
+                ));
+            }
+        }
+        if hit_clamp && nt > 1 {
+            ctx.count("iir_feedback_after_clamp");
+        }
+    }
     // Tap design: symmetric, unit DC gain (Hamming windows are symmetric here).
     if src.chance(1, 4) {
         let sr = *src.pick(&[8000.0f32, 44100.0, 48000.0, 50000.0]);
